@@ -255,6 +255,10 @@ def run(F, rep, tier):
     consistency_rule(F, rep)
     determinism_rule(F, rep)
     reader_rule(F, rep)
+    # metadata.json must be readable back by the crate's own reader: what the .slp reader admits (nesting depth) stays within
+    # what serde_json's reader of metadata.json accepts (shared with C02)
+    from props import C02 as _C02
+    _C02.depth_rule(F, rep)
     mn = order.rule_min_version(F, rep)
     import common
     r2 = common.Report("ctl", "quick")
